@@ -289,6 +289,28 @@ pub fn run(rep: &Report) -> serde_json::Value {
         }
         for n in [0u8, 1, 255] { let mut m = base.clone(); if m.len() > 18 { m[18] = n; } for &e in &[6u8, 7, 8, 2] { inputs.push(Input { family: "F7-fragment-prefix", entry: e, bytes: m.clone(), inflated: 0, over_declared: false, depth: 0 }); } }
     }
+    // F10: control tuples: every operation code 0..255 (and the boundary integers in every width, big integers included)
+    // x arities 1..10 x six element fills, as the receive paths convert them (ControlMessage::from_term, as_integer)
+    {
+        let mut tags: Vec<Vec<u8>> = (0u32..=255).map(|t| if t < 256 { vec![97, t as u8] } else { unreachable!() }).collect();
+        for t in crate::universe::int_leaves().into_iter().chain(crate::universe::bigint_leaves()) {
+            if let Ok(b) = erltf::encode(&t) { tags.push(b[1..].to_vec()); }
+        }
+        for v in [0u8, 1, 32, 255] { tags.push(vec![110, 9, 0, v, 0, 0, 0, 0, 0, 0, 0, 0]); tags.push(vec![98, 0, 0, 0, v]); tags.push(vec![111, 0, 0, 0, 1, 0, v]); }
+        let pid: Vec<u8> = vec![88, 119, 3, b'n', b'@', b'h', 0, 0, 0, 1, 0, 0, 0, 2, 0, 0, 0, 3];
+        let rf: Vec<u8> = vec![90, 0, 2, 119, 3, b'n', b'@', b'h', 0, 0, 0, 3, 0, 0, 0, 1, 0, 0, 0, 2];
+        let fills: Vec<Vec<u8>> = vec![vec![97, 1], vec![119, 1, b'a'], pid, rf, vec![110, 8, 1, 0, 0, 0, 0, 0, 0, 0, 0x80], vec![109, 0, 0, 0, 1, 7]];
+        for tag in &tags {
+            for arity in 1usize..=10 {
+                for fill in &fills {
+                    let mut b = vec![131, 104, arity as u8];
+                    b.extend_from_slice(tag);
+                    for _ in 1..arity { b.extend_from_slice(fill); }
+                    inputs.push(Input { family: "F10-control-tuples", entry: 10, bytes: b, inflated: 0, over_declared: false, depth: 0 });
+                }
+            }
+        }
+    }
     // large inputs last in each shard would serialise; sort by size so shards are balanced
     let order: Vec<usize> = { let mut o: Vec<usize> = (0..inputs.len()).collect(); o.sort_by_key(|&i| (i % 16, inputs[i].bytes.len())); o };
     let feed: Vec<(u8, Vec<u8>)> = order.iter().map(|&i| (inputs[i].entry, inputs[i].bytes.clone())).collect();
@@ -328,6 +350,35 @@ pub fn run(rep: &Report) -> serde_json::Value {
             }
             Outcome::Died => rep.violation("decoder aborted the process", detail()),
         }
+    }
+    // the same nesting paths around the decoder's depth limit through the unoptimised build of this program (the profile
+    // `cargo test` and `cargo run` use: its stack frames are several times larger than the optimised ones)
+    let mut dev_runs = 0u64;
+    if let Ok(dev) = std::env::var("VERIF_DEV_PROBE") {
+        let mut dev_inputs: Vec<(u8, Vec<u8>, &str, usize)> = vec![];
+        for p in paths {
+            for depth in [64usize, 128, 200, 250, 255, 256, 257, 300, 1024, 65_536] {
+                let b = nest(p, depth);
+                for &e in &[0u8, 1, 2, 8] {
+                    if e == 1 && p == "local-ext" { continue; }
+                    dev_inputs.push((e, b.clone(), p, depth));
+                }
+            }
+        }
+        let feed: Vec<(u8, Vec<u8>)> = dev_inputs.iter().map(|(e, b, _, _)| (*e, b.clone())).collect();
+        let results = probe::run_all_with(std::path::Path::new(&dev), &feed, 16);
+        for (inp, r) in dev_inputs.iter().zip(results.iter()) {
+            rep.add("evaluations", 1);
+            dev_runs += 1;
+            let detail = || json!({"family": "F2-nesting (unoptimised build)", "path": inp.2, "depth": inp.3, "entry": probe::ENTRIES[inp.0 as usize], "outcome": format!("{:?}", r.outcome), "note": r.note});
+            match r.outcome {
+                Outcome::Ok | Outcome::Err => {}
+                Outcome::Panic => rep.violation("decoder panicked", detail()),
+                Outcome::StackOverflow => rep.violation("stack overflow on a 2 MiB thread", detail()),
+                Outcome::Died => rep.violation("decoder aborted the process", detail()),
+            }
+        }
+        fam.insert("F2-nesting (unoptimised build)".into(), dev_runs);
     }
     rep.sample(json!({"family": "F1-length-fields", "bytes": hex(&inputs[5000.min(inputs.len() - 1)].bytes)}));
     rep.sample(json!({"family": "F2-nesting", "path": "map-value", "depth": 4, "bytes": hex(&nest("map-value", 4))}));
